@@ -211,7 +211,13 @@ func parseString(s *sqliState) int {
 }
 
 func parseWord(s *sqliState) int {
-	length := strLenCSpn(s.input[s.pos:], s.length-s.pos, wordAcceptTable)
+	// only the first tokenSize bytes can matter for the keyword split below,
+	// so do not scan a long word to its end before knowing it is consumed
+	limit := s.length - s.pos
+	if limit > tokenSize {
+		limit = tokenSize
+	}
+	length := strLenCSpn(s.input[s.pos:], limit, wordAcceptTable)
 	s.current.assign(sqliTokenTypeBareWord, s.pos, length, s.input[s.pos:])
 
 	// now we need to look inside what we good for "." and "`"
@@ -228,6 +234,10 @@ func parseWord(s *sqliState) int {
 				return s.pos + i
 			}
 		}
+	}
+
+	if length == tokenSize {
+		length += strLenCSpn(s.input[s.pos+length:], s.length-s.pos-length, wordAcceptTable)
 	}
 
 	// do normal lookup with word including '.'
